@@ -239,13 +239,13 @@ example : ({ inputs := .featuresAndCommit [{ features := .coinbase, commit := Li
     { ver := 3, nrd := false, maxWeight := 40000, proofSize := 42, key := fun b => ofBE (b.take 2) } := by
   refine ⟨⟨?_, ?_⟩, ?_, ?_, ?_, ?_, ?_, ?_, ?_, ?_⟩
   · intro i hi; simp only [List.mem_singleton] at hi; subst hi; exact List.length_replicate
-  · simp
+  · exact List.pairwise_singleton _ _
   · intro o ho; simp only [List.mem_singleton] at ho; subst ho
     exact ⟨List.length_replicate, rfl, List.length_replicate⟩
-  · simp
+  · exact List.pairwise_singleton _ _
   · intro k hk; simp only [List.mem_singleton] at hk; subst hk
     exact ⟨by decide, List.length_replicate, List.length_replicate⟩
-  · simp
+  · exact List.pairwise_singleton _ _
   · decide
   · decide
   · decide
